@@ -11,7 +11,7 @@ use std::ffi::CString;
 use std::os::raw::c_char;
 use std::panic::{catch_unwind, AssertUnwindSafe};
 use std::path::{Path, PathBuf};
-use std::sync::Mutex;
+use std::sync::{Arc, Mutex, Weak};
 use std::time::Instant;
 
 extern "C" {
@@ -509,11 +509,50 @@ pub enum Fail {
 
 pub const SLOW_S: f64 = 2.0;
 
+/// What a context is doing right now, readable by the watchdog thread (a call that never
+/// returns) and, in journal mode, persisted before every call (a call that kills the process).
+pub struct Journal {
+    pub opts: Opts,
+    /// fixed-method state set through the restore hook before `since` (buffer, typed, pending)
+    pub origin: Option<(String, String, u8)>,
+    /// events applied since the method was last re-created / restored / a word ended
+    pub since: Vec<Ev>,
+    pub started: Option<Instant>,
+    pub id: usize,
+}
+
+impl Journal {
+    pub fn to_json(&self, property: &str, kind: &str, detail: &str) -> Value {
+        json!({
+            "property": property, "kind": kind, "class": kind,
+            "features": {"flags": self.opts.flags(), "history": hist_short(&self.since)},
+            "opts": self.opts.to_json(),
+            "origin": self.origin.as_ref().map(|(b, t, p)| json!({"buffer": b, "typed": t, "pending_kar": p})),
+            "files": {},
+            "events": self.since.iter().map(|e| e.to_json()).collect::<Vec<_>>(),
+            "history": hist_short(&self.since),
+            "detail": detail,
+        })
+    }
+}
+
+pub static REGISTRY: Mutex<Vec<Weak<Mutex<Journal>>>> = Mutex::new(Vec::new());
+static NEXT_ID: std::sync::atomic::AtomicUsize = std::sync::atomic::AtomicUsize::new(0);
+
+/// directory for the crash journal (set by `bin/check` only when a run died abnormally)
+pub fn journal_dir() -> Option<&'static str> {
+    static DIR: std::sync::OnceLock<Option<String>> = std::sync::OnceLock::new();
+    DIR.get_or_init(|| std::env::var("VERIF_JOURNAL").ok().filter(|s| !s.is_empty())).as_deref()
+}
+
+pub const HANG_S: f64 = 20.0;
+
 /// A real context plus the options it was created with.
 pub struct Ctx {
     pub ctx: RitiContext,
     pub opts: Opts,
     pub with_pre: bool,
+    pub journal: Arc<Mutex<Journal>>,
 }
 
 impl Ctx {
@@ -521,10 +560,50 @@ impl Ctx {
     pub fn new(opts: &Opts) -> Result<Ctx, Panic> {
         let cfg = opts.to_config();
         let ctx = guard(|| RitiContext::new_with_config(&cfg))?;
-        Ok(Ctx { ctx, opts: opts.clone(), with_pre: true })
+        let journal = Arc::new(Mutex::new(Journal {
+            opts: opts.clone(),
+            origin: None,
+            since: vec![],
+            started: None,
+            id: NEXT_ID.fetch_add(1, std::sync::atomic::Ordering::Relaxed),
+        }));
+        {
+            let mut reg = REGISTRY.lock().unwrap();
+            reg.retain(|w| w.strong_count() > 0);
+            reg.push(Arc::downgrade(&journal));
+        }
+        Ok(Ctx { ctx, opts: opts.clone(), with_pre: true, journal })
     }
 
     pub fn apply(&mut self, ev: &Ev) -> Result<Out, Fail> {
+        {
+            let mut j = self.journal.lock().unwrap();
+            if j.since.len() >= 4096 {
+                j.since.clear();
+            }
+            j.since.push(ev.clone());
+            j.started = Some(Instant::now());
+            if let Some(dir) = journal_dir() {
+                let prop = std::env::args().nth(1).unwrap_or_default().to_uppercase();
+                let _ = std::fs::write(format!("{}/{}.json", dir, j.id), j.to_json(&prop, "abort", "the process died during the last event of this history").to_string());
+            }
+        }
+        let r = self.apply_inner(ev);
+        {
+            let mut j = self.journal.lock().unwrap();
+            j.started = None;
+            if matches!(ev, Ev::Finish | Ev::Commit(_) | Ev::CtrlBs) && !matches!(r, Err(_)) && j.origin.is_none() && j.since.len() > 256 {
+                // long-running walkers: keep the journal short (the composition restarts here)
+                j.since.clear();
+            }
+            if let Ev::Update(o) = ev {
+                j.opts = (**o).clone();
+            }
+        }
+        r
+    }
+
+    fn apply_inner(&mut self, ev: &Ev) -> Result<Out, Fail> {
         let t = Instant::now();
         let r = match ev {
             Ev::Key { code, m, sel } => {
@@ -593,9 +672,28 @@ impl Ctx {
     }
     /// fresh method over the same config and user directory (re-reads user files)
     pub fn reset(&mut self) -> Result<(), Panic> {
+        {
+            let mut j = self.journal.lock().unwrap();
+            j.since.clear();
+            j.origin = None;
+        }
         guard(|| self.ctx.verif_reset_method())
     }
     pub fn set_fixed(&self, buffer: &str, typed: &str, pending: u8) {
+        {
+            let mut j = self.journal.lock().unwrap();
+            j.since.clear();
+            match &mut j.origin {
+                Some((b, t, p)) => {
+                    b.clear();
+                    b.push_str(buffer);
+                    t.clear();
+                    t.push_str(typed);
+                    *p = pending;
+                }
+                None => j.origin = Some((buffer.to_string(), typed.to_string(), pending)),
+            }
+        }
         assert!(self.ctx.verif_set_composition(buffer, typed, pending), "not a fixed method");
     }
 }
